@@ -175,6 +175,12 @@ def step(op, env):
         a = env[op["a"]]
         with np.errstate(all="ignore"):
             return V(a.names, a.sizes, UNARY[op["fn"]](a.arr))
+    if t == "binary" and op["fn"] == "matmul":
+        a, b = env[op["a"]], env[op["b"]]
+        if len(a.event) != 1 or a.event != b.event:
+            raise Unsupported("matmul of non-vectors")
+        names, sizes = _union([a, b])
+        return V(names, sizes, np.sum(_expand(a, names, sizes) * _expand(b, names, sizes), -1))
     if t == "binary":
         if op["fn"] not in BINARY:
             raise Unsupported(op["fn"])
